@@ -266,6 +266,20 @@ theorem corr_is_pearson_or_nan (c : Cov) (ps : List (Rat × Rat)) (h : CovRep c 
     | [p], _ => simp [ssd, lsum, mean]
   rw [Cov.corrSq, hmx, hz]; simp
 
+-- OBLIGATION: PysparklingVerif.C17.merge_equal_means
+/-- why the repaired merge keeps a constant column degenerate for EVERY split, also in floating point: when the two partial
+means are equal the difference is zero, so the merged mean is the old mean minus zero times a weight and the sum of squared
+deviations grows by zero times a weight - no division of a product by the count it was multiplied with (`0.1 * 3 / 3`)
+takes place; and an empty counter (mean 0, count 0) takes over the other mean as `0 - (0 - m) * (n / n)`. (The text before
+`0615c20` recomputed `(xAvg * count + other.xAvg * other.count) / totalCount`, which is the same rational number and a
+different double.) Stated on the model, whose `Cov.merge` is the regenerated text (`Extracted.C17.covMerge_eq`). -/
+theorem merge_equal_means (c o : Cov) (hx : c.xAvg = o.xAvg) :
+    (c.merge o).xAvg = c.xAvg ∧ (c.merge o).mkX = (if o.count > 0 then c.mkX + o.mkX else c.mkX) := by
+  unfold Cov.merge
+  by_cases h : o.count > 0
+  · simp [h, hx]
+  · simp [h]
+
 -- non-vacuity
 example : (cov [[(1, 2)], [], [(2, 4), (3, 7)]]).corrSq = some (75 / 76) := by decide +kernel
 example : (cov [[], []]).corrSq = none := by decide +kernel
